@@ -3,6 +3,7 @@ import IppModel
 import IppModel.Spec.Requests
 import IppModel.Model.Stream
 import IppModel.Model.Json
+import IppModel.Model.Cost
 namespace Ipp.Ops2
 open Ipp Ipp.Gen Ipp.Text
 
@@ -193,6 +194,21 @@ def dispatch2 (op : String) (args : List SExp) : Option String :=
           | none => "rt=NONE"
         s!"{showJson j} {back}"
      | none => "(bad-arg)")
+  | "costcheck", [.atom h] =>
+    some (match hexToBytes h with
+     | some b =>
+        (match parseCost b with
+         | .ok ((_, c), rest) => if c ≤ 8 * (b.length - rest.length) + 8 then "ok" else s!"BOUND-VIOLATED consumed={b.length - rest.length} cost={c}"
+         | _ => "err")
+     | none => "(bad-arg)")
+  | "costcheckw", [w, .atom p] =>
+    some (match readWMsg w, hexToBytes p with
+     | some w, some pay =>
+        let b := Spec.ser w ++ pay
+        (match parseCost b with
+         | .ok ((_, c), rest) => if c ≤ 8 * (b.length - rest.length) + 8 then "ok" else s!"BOUND-VIOLATED consumed={b.length - rest.length} cost={c}"
+         | _ => "err")
+     | _, _ => "(bad-arg)")
   | "thm10", [.atom k, .atom _, .atom j, .atom p, .list (.atom "calls" :: calls), c] =>
     some (match opKindOf k, hexToNat j, hexToBytes p, calls.mapM readCall, readComponents c with
      | some k, some j, some p, some calls, some u =>
